@@ -77,7 +77,7 @@ Record case_facts (c : case) : Prop := {
   cf_chan : 0 <= c_chan c < U32; cf_token : 0 <= c_token c < U32; cf_req : 0 <= c_req c < U32;
   cf_seq : 0 <= c_seq c /\ c_seq c + len (data_of c) < U32;
   cf_keys : key_ok (c_policy c) (c_sks c) = true /\ key_ok (c_policy c) (c_rks c) = true;
-  cf_cert : c_sks c < c_certlen c <= 4000 /\ 4 <= c_certlen c;
+  cf_cert : c_policy c <> PNone -> c_sks c < c_certlen c <= 4000 /\ 4 <= c_certlen c;
   cf_data : data_of c <> [] /\ len (data_of c) < 16777216
 }.
 
@@ -96,7 +96,15 @@ Proof.
          | X : (_ =? _) = true |- _ => apply Z.eqb_eq in X
          | X : _ \/ _ |- _ => destruct X as [X|X]
          end.
+  all: repeat match goal with
+         | X : (_ && _) = true |- _ => apply andb_true_iff in X as [? ?]
+         end.
+  all: repeat match goal with
+         | X : (_ <=? _) = true |- _ => apply Z.leb_le in X
+         | X : (_ <? _) = true |- _ => apply Z.ltb_lt in X
+         end.
   all: constructor; try tauto; try lia.
+  all: try (intro Hp; try lia; destruct (c_policy c); cbn in *; congruence).
   all: try (destruct (c_policy c), (c_mode c); try discriminate; (left; split; reflexivity) || (right; split; [discriminate|tauto])).
   all: try (split; [|lia]; intro E; unfold data_of in E; apply (f_equal len) in E; rewrite !len_app, len_nil in E;
             pose proof (len_nonneg (fill_bytes (c_fill c))); pose proof (len_nonneg (c_suffix c)); lia).
@@ -122,7 +130,7 @@ Proof.
     apply T; [unfold U32; lia|lia].
   - intro Hp. rewrite (Hn Hp). exists rthumb. repeat split.
   - intro Hp. rewrite (Hn Hp). split; reflexivity.
-  - intro Hp. rewrite len_toy_cert by lia. lia.
+  - intro Hp. specialize (Hcert Hp). rewrite len_toy_cert by lia. lia.
   - intros Hp blk Hb. destruct (Hgeo Hp) as (A & B & C). unfold rkey.
     pose proof (toy_rsa_laws (16 * c_rks c + 2) (c_policy c) blk) as T. rewrite key_size_id in T by lia.
     apply T; lia.
@@ -138,9 +146,10 @@ Proof.
   intro Hv. destruct (valid_facts c Hv) as [_ _ _ _ _ _ _ Hcert _].
   unfold spec_header_size, sec_header. cbn [sender_of s_policy s_token s_cert s_rthumb].
   destruct (c_mty c); try (rewrite len_le32; lia).
-  destruct (is_none (c_policy c)).
+  destruct (is_none (c_policy c)) eqn:En.
   - rewrite !len_app, len_bstr. change (len bnull) with 4. lia.
-  - cbn [bopt]. rewrite !len_app, !len_bstr, len_toy_cert by lia. change (len rthumb) with 20. lia.
+  - assert (Hp : c_policy c <> PNone) by (intro E; rewrite E in En; discriminate). specialize (Hcert Hp).
+    cbn [bopt]. rewrite !len_app, !len_bstr, len_toy_cert by lia. change (len rthumb) with 20. lia.
 Qed.
 
 Lemma ck_two (e : bool) (sec : bytes) :
@@ -230,7 +239,9 @@ Section Run.
     destruct (valid_facts c Hv) as [_ Hmax _ _ Hreq [Hs0 Hs1] _ _ [Hd0 Hd1]].
     destruct (encode_ok P fx eq_refl eq_refl eq_refl S R L t (c_req c) Hreq (c_seq c) (c_max c) (data_of c)
                 Hd0 ltac:(lia) Hs0 Hs1 Hmax) as (parts & Henc & Hne & Hcat & Hsm & Hn & Hsz & Hval & Hdec).
-    unfold run_with. fold P S R t. rewrite Henc.
+    assert (Hch : chunks_of_case true fx c = encode fx S t (c_seq c) (c_req c) (c_max c) (data_of c)).
+    { unfold chunks_of_case, writer_chunks. fold S t. destruct (c_writer c); [replace (c_seq c - 1 + 1) with (c_seq c) by lia|]; reflexivity. }
+    unfold run_with, run_gen. rewrite Hch. fold P S R t. rewrite Henc.
     set (n := Z.of_nat (length parts)) in *.
     assert (Hsz' : c_max c = 0 \/ Forall (fun p => secured_size S t (len p) <= c_max c) parts).
     { destruct Hmax as [E|E]; [left; exact E|right; apply Hsz; change src_min_chunk with 8196 in E; lia]. }
@@ -251,11 +262,17 @@ Proof. intros Hv _. apply oracle_run. exact Hv. Qed.
 
 (* ================= the code before the fixes violates the property ================= *)
 Definition w_padding : case :=
-  mk_case Basic256Sha256 MSign MSG 8196 5 9 1 1000 256 256 903 [1; 0; 214; 1] (mk_fill 100 3 7 256 0) [] [] false.
+  mk_case Basic256Sha256 MSign MSG 8196 5 9 1 1000 256 256 903 [1; 0; 214; 1] (mk_fill 100 3 7 256 0) [] [] false false.
 Definition w_budget : case :=
-  mk_case Basic128Rsa15 MSignEnc MSG 8196 5 9 1 1000 256 256 903 [1; 0; 214; 1] (mk_fill 9000 3 7 256 0) [] [] false.
+  mk_case Basic128Rsa15 MSignEnc MSG 8196 5 9 1 1000 256 256 903 [1; 0; 214; 1] (mk_fill 9000 3 7 256 0) [] [] false false.
 Definition w_opn_budget : case :=
-  mk_case Basic128Rsa15 MSignEnc OPN 8196 5 9 1 1000 256 256 903 [1; 0; 190; 1] (mk_fill 9000 3 7 256 0) [] [] false.
+  mk_case Basic128Rsa15 MSignEnc OPN 8196 5 9 1 1000 256 256 903 [1; 0; 190; 1] (mk_fill 9000 3 7 256 0) [] [] false false.
+
+(* a 9000 byte response through the server's writer on a connection whose negotiated send buffer is 8196 bytes *)
+Definition w_writer : case :=
+  mk_case PNone MNone MSG 8196 5 9 1 1000 0 0 0 [1; 0; 214; 1] (mk_fill 9000 3 7 256 0) [] [] false true.
+Lemma legacy_writer_refuted : valid w_writer /\ oracle w_writer (Legacy.run_writer w_writer) = false /\ oracle w_writer (run w_writer) = true.
+Proof. repeat split; vm_compute; reflexivity. Qed.
 
 Lemma legacy_padding_refuted : valid w_padding /\ oracle w_padding (Legacy.run_padding w_padding) = false.
 Proof. split; vm_compute; reflexivity. Qed.
